@@ -5,7 +5,7 @@ ID="$1"
 cd /repo || exit 2
 [ -z "$(git status --porcelain)" ] || { echo "/repo is dirty"; exit 2; }
 mkdir -p /tmp/gbcheck_scratch; cp /verif/known_findings.txt /tmp/gbcheck_scratch/
-for d in /tmp/seed_out/benign/$ID/b*/; do
+for d in ${BENIGN_DIR:-/tmp/seed_out/benign}/$ID/b*/; do
   k=$(basename $d)
   [ -f $d/patch.diff ] || continue
   if ! git apply --check $d/patch.diff 2>/dev/null; then echo "$ID $k: patch does not apply"; continue; fi
